@@ -30,6 +30,8 @@ func main() {
 		runC07(ev.Parse("fault_enumeration"))
 	case "crash-child":
 		crashChild()
+	case "recover-child":
+		recoverChild()
 	default:
 		fmt.Println("dbmc: unknown property", os.Args[1])
 		os.Exit(2)
